@@ -511,12 +511,22 @@ func RunWorker[P any](t *testing.T, cfg Config, eng *Engine[P]) {
 					res = res2
 				}
 			} else if res2.TraceHash != res.TraceHash {
+				// Same plan, different history, no violation in either. On the
+				// unchanged tree this does not happen (selftest.py determinism
+				// runs with VERIF_STRICT_DETERMINISM=1 and fails on it); a
+				// changed library may itself behave nondeterministically
+				// (sync.Pool, map iteration), which affects replayability, not
+				// the verdicts. Counted and reported in the evidence.
 				st.RecheckFail++
-				b, _ := json.Marshal(plan)
-				st.Note = fmt.Sprintf("nondeterministic replay of plan %s: %x vs %x", b, res.TraceHash, res2.TraceHash)
-				write()
-				fmt.Fprintf(os.Stderr, "SIM-FATAL %s\n", st.Note)
-				os.Exit(ExitInternal)
+				if st.Note == "" {
+					b, _ := json.Marshal(plan)
+					st.Note = fmt.Sprintf("nondeterministic re-execution of plan %s: %x vs %x", firstLines(string(b), 3), res.TraceHash, res2.TraceHash)
+				}
+				if os.Getenv("VERIF_STRICT_DETERMINISM") != "" {
+					write()
+					fmt.Fprintf(os.Stderr, "SIM-FATAL %s\n", st.Note)
+					os.Exit(ExitInternal)
+				}
 			}
 		}
 		// violations of the property under check
